@@ -88,7 +88,7 @@ CLAIMS = {
         "_run_weak_sim on enumerated and random histories, serial and parallel (deterministic executor). The search runs real "
         "simulations: reused vs fresh noise-free results, deep equality of circuit/Hamiltonian/noise model before and after, one "
         "OS-seeded Generator per trajectory with distinct states. PARTIAL: statistical independence of separately OS-seeded "
-        "generators (also across forked workers) is a property of NumPy/the OS and is not modelled. Extended: layer-sampling histories (columns depend on the circuit of the run only). Real pools of four workers: no trajectory repeats another of the same or previous run; generator-per-trajectory is a correspondence, not a demand. One AnalogSimParams object served by TJM, MCWF and Lindblad in any order (run_analog model + trace). State-ray check with an asymmetric initial state. Noise models with switched-off channels next to live ones and with drawn strengths, the Lindblad solver, scheduled jumps and long-range factors in the before/after snapshot. Aliasing model (ObjStore): theorem that writes addressed to objects the run allocated leave every caller object unchanged; tie: NoiseModel.sample() shares nothing with its source, operation sequences on the real sample vs run_on_sample, run() hands a sample to every front-end. Scheduled jumps next to a channel of negligible rate: every trajectory of a run is the same evolution whatever its index or worker. Allocation of result storage regenerated from the source of Observable.initialize on every run (translate_init.py -> Gen/InitGen.v) and proved equal to the model (one row per requested trajectory or shot, the front-end's column count, nothing inherited from an earlier run); validated against the real method on fresh and used observables. Refused calls (noisy circuit run with get_state) in the Params model with theorem that histories with refusals are as harmless as histories without; refused-then-corrected histories on the real front-ends. Different user-defined operators under the same name, strength and step in consecutive runs.",
+        "generators (also across forked workers) is a property of NumPy/the OS and is not modelled. Extended: layer-sampling histories (columns depend on the circuit of the run only). Real pools of four workers: no trajectory repeats another of the same or previous run; generator-per-trajectory is a correspondence, not a demand. One AnalogSimParams object served by TJM, MCWF and Lindblad in any order (run_analog model + trace). State-ray check with an asymmetric initial state. Noise models with switched-off channels next to live ones and with drawn strengths, the Lindblad solver, scheduled jumps and long-range factors in the before/after snapshot. Aliasing model (ObjStore): theorem that writes addressed to objects the run allocated leave every caller object unchanged; tie: NoiseModel.sample() shares nothing with its source, operation sequences on the real sample vs run_on_sample, run() hands a sample to every front-end. Scheduled jumps next to a channel of negligible rate: every trajectory of a run is the same evolution whatever its index or worker. Allocation of result storage regenerated from the source of Observable.initialize on every run (translate_init.py -> Gen/InitGen.v) and proved equal to the model (one row per requested trajectory or shot, the front-end's column count, nothing inherited from an earlier run); validated against the real method on fresh and used observables. Refused calls (noisy circuit run with get_state) in the Params model with theorem that histories with refusals are as harmless as histories without; refused-then-corrected histories on the real front-ends. Different user-defined operators under the same name, strength and step in consecutive runs. Runs that fail inside the engines (Failures model: Completes / Refused / Fails; theorem that any such history leaves the next run as on a fresh object), tied through the public entry point with a trajectory routine that raises.",
         COMMON_NOTE + "Translator harness/gen/translate_init.py (Observable.initialize -> Gen/InitGen.v), validated against the real method on every run.",
         "DESIGN.md §3 C20"),
     "C18": (
